@@ -31,6 +31,7 @@ type c03Prog struct {
 	Policy     *model.Policy `json:"policy,omitempty"`
 	Reqs       []c03Req      `json:"reqs"`
 	Restart    bool          `json:"restart,omitempty"` // restart the serving instance after the settings were put
+	Race       *c03Race      `json:"race,omitempty"`    // settings-replacement race variant (c03race.go)
 }
 
 type c03 struct{ baseCheck }
@@ -99,6 +100,18 @@ func c03GenPolicy(r *rand.Rand, bucket string, users []string) *model.Policy {
 
 func (c03) Gen(seed uint64, run int, tier string) *core.Case {
 	r := sim.Rng(seed, "gen")
+	if run%5 == 4 {
+		cfg := swarmCfg(r, 2)
+		p := c03Prog{Race: c03GenRace(r)}
+		c := &core.Case{Check: "C03", Property: "C03", Seed: seed, Cfg: cfg}
+		if r.IntN(2) == 0 {
+			c.Sched = core.Sched{Policy: sim.Rand, PreemptP: []float64{0.05, 0.15, 0.4}[r.IntN(3)]}
+		} else {
+			c.Sched = core.Sched{Policy: sim.PCT, Depth: 1 + r.IntN(3), EstSteps: 150}
+		}
+		c.SetP(&p)
+		return c
+	}
 	cfg := swarmCfg(r, 3)
 	cfg.Versioning = true
 	p := c03Prog{OwnerUserA: r.IntN(3) == 0, Restart: r.IntN(4) == 0}
@@ -135,6 +148,42 @@ func (c03) Gen(seed uint64, run int, tier string) *core.Case {
 func (c03) Shrink(c *core.Case) []*core.Case {
 	var p c03Prog
 	c.GetP(&p)
+	if p.Race != nil {
+		var out []*core.Case
+		if p.Race.Repl > 1 {
+			q := p
+			rc := *p.Race
+			rc.Repl--
+			q.Race = &rc
+			n := c.Clone()
+			n.SetP(&q)
+			out = append(out, n)
+		}
+		for i := range p.Race.Intrude {
+			if len(p.Race.Intrude) > 1 {
+				q := p
+				rc := *p.Race
+				rc.Intrude = append(append([]string{}, p.Race.Intrude[:i]...), p.Race.Intrude[i+1:]...)
+				q.Race = &rc
+				n := c.Clone()
+				n.SetP(&q)
+				out = append(out, n)
+			}
+		}
+		if c.Cfg.Instances > 1 {
+			n := c.Clone()
+			n.Cfg.Instances = 1
+			out = append(out, n)
+		}
+		if c.Sched.Policy == sim.Replay {
+			for i := range c.Sched.Plan {
+				n := c.Clone()
+				n.Sched.Plan = append(append([]sim.Switch{}, c.Sched.Plan[:i]...), c.Sched.Plan[i+1:]...)
+				out = append(out, n)
+			}
+		}
+		return out
+	}
 	var out []*core.Case
 	for _, keep := range core.DropCandidates(len(p.Reqs)) {
 		q := p
@@ -224,6 +273,9 @@ func c03Decide(pol *model.Policy, acl *aclModel, user, action, resource, aclPerm
 func (c03) Exec(c *core.Case) (out *core.Outcome) {
 	var p c03Prog
 	c.GetP(&p)
+	if p.Race != nil {
+		return c03ExecRace(c, &p)
+	}
 	o := &core.Outcome{}
 	out = o
 	defer guard(&out, c)
